@@ -120,76 +120,128 @@ func dumpBlocks(bs []txt.Block) string {
 }
 
 func dumpParse(rs []klog.Record, bs []txt.Block, errs []txt.Error) string {
-	return fmt.Sprintf("records(%d,nil=%v):\n%sblocks(%d,nil=%v):\n%serrors(%d): %v", len(rs), rs == nil, dumpRecords(rs), len(bs), bs == nil, dumpBlocks(bs), len(errs), tuples(errs))
+	// lengths, not nil-ness: an empty result is the same result whether the slice is nil or empty
+	return fmt.Sprintf("records(%d):\n%sblocks(%d):\n%serrors(%d): %v", len(rs), dumpRecords(rs), len(bs), dumpBlocks(bs), len(errs), tuples(errs))
 }
 
 // schedule forces the arrival order of the batch results through the verif hook: batch perm[0]
-// delivers first, then perm[1], and so on. It is best effort by design, so that it cannot wedge
-// an implementation that runs fewer (or more) batches than workers were asked for: when the batch
-// whose turn it is has not shown up within a grace period while others are waiting, its turn is
-// skipped (it may deliver whenever it arrives); batch indices outside perm pass freely. The oracle
-// (parallel == serial) does not depend on the order that is finally realised.
+// delivers first, then perm[1], and so on. The batch indices that actually occur are learnt from a
+// first, unforced parse of the same text with the same worker count (an implementation may run fewer
+// batches than workers, e.g. for short texts); the forced order is over those. As a backstop the
+// gates are best effort: a turn whose batch has not shown up within a grace period while others are
+// waiting is given away, and unknown indices pass freely, so that the harness can never wedge. The
+// oracle (parallel == serial) does not depend on the order that is finally realised.
+//
+// The hook functions are installed once and read the active schedule through an atomic pointer, so
+// that a hook call which an implementation makes after Parse has returned does not race with the
+// harness (the race detector watches this test in the thorough tier).
 type schedule struct {
 	mu      sync.Mutex
+	learn   bool         // only record which indices occur
+	seen    map[int]bool // learn mode: the indices
 	perm    []int
 	pos     map[int]int // batch index -> rank in perm
 	turn    int
 	changed chan struct{}
-	skips   int
 }
 
 const scheduleGrace = 30 * gotime.Millisecond
 
-var scheduleSkips int64 // number of skipped turns (statistics)
+var scheduleSkips int64 // number of turns given away (statistics)
+var activeSchedule atomic.Pointer[schedule]
+var hookOnce sync.Once
 
-func installSchedule(perm []int) {
-	s := &schedule{perm: perm, pos: map[int]int{}, changed: make(chan struct{})}
-	for rank, i := range perm {
-		s.pos[i] = rank
-	}
-	bump := func() { // with s.mu held
-		close(s.changed)
-		s.changed = make(chan struct{})
-	}
-	engine.VerifSchedule.Before = func(i int) {
-		s.mu.Lock()
-		for {
-			rank, known := s.pos[i]
-			if !known || rank <= s.turn || s.turn >= len(s.perm) {
-				s.mu.Unlock()
-				return
-			}
-			ch, seen := s.changed, s.turn
-			s.mu.Unlock()
-			select {
-			case <-ch:
-			case <-gotime.After(scheduleGrace):
-			}
-			s.mu.Lock()
-			if s.turn == seen && ch == s.changed {
-				// nothing happened for the whole grace period: the awaited batch is not coming
-				// (or is very slow); give its turn away
-				s.turn++
-				s.skips++
-				atomic.AddInt64(&scheduleSkips, 1)
-				bump()
+func ensureHooks() {
+	hookOnce.Do(func() {
+		engine.VerifSchedule.Before = func(i int) {
+			if s := activeSchedule.Load(); s != nil {
+				s.before(i)
 			}
 		}
+		engine.VerifSchedule.After = func(i int) {
+			if s := activeSchedule.Load(); s != nil {
+				s.after(i)
+			}
+		}
+	})
+}
+
+func (s *schedule) bump() { // with s.mu held
+	close(s.changed)
+	s.changed = make(chan struct{})
+}
+
+func (s *schedule) before(i int) {
+	s.mu.Lock()
+	if s.learn {
+		s.seen[i] = true
+		s.mu.Unlock()
+		return
 	}
-	engine.VerifSchedule.After = func(i int) {
+	for {
+		rank, known := s.pos[i]
+		if !known || rank <= s.turn || s.turn >= len(s.perm) {
+			s.mu.Unlock()
+			return
+		}
+		ch, seenTurn := s.changed, s.turn
+		s.mu.Unlock()
+		select {
+		case <-ch:
+		case <-gotime.After(scheduleGrace):
+		}
 		s.mu.Lock()
+		if s.turn == seenTurn && ch == s.changed {
+			// nothing happened for the whole grace period: the awaited batch is not coming (or
+			// is very slow); give its turn away
+			s.turn++
+			atomic.AddInt64(&scheduleSkips, 1)
+			s.bump()
+		}
+	}
+}
+
+func (s *schedule) after(i int) {
+	s.mu.Lock()
+	if !s.learn {
 		if rank, known := s.pos[i]; known && rank == s.turn {
 			s.turn++
-			bump()
+			s.bump()
 		}
-		s.mu.Unlock()
 	}
+	s.mu.Unlock()
 }
 
-func clearSchedule() {
-	engine.VerifSchedule.Before = nil
-	engine.VerifSchedule.After = nil
+// learnBatches runs one unforced parse and returns the batch indices for which the hook fired.
+func learnBatches(n int, text string) map[int]bool {
+	ensureHooks()
+	s := &schedule{learn: true, seen: map[int]bool{}, changed: make(chan struct{})}
+	activeSchedule.Store(s)
+	parser.NewParallelParser(n).Parse(text)
+	activeSchedule.Store(nil)
+	s.mu.Lock()
+	defer s.mu.Unlock()
+	out := map[int]bool{}
+	for k := range s.seen {
+		out[k] = true
+	}
+	return out
 }
+
+// installSchedule forces the order perm, restricted to the batch indices in occurring (nil = all).
+func installSchedule(perm []int, occurring map[int]bool) {
+	ensureHooks()
+	s := &schedule{pos: map[int]int{}, changed: make(chan struct{})}
+	for _, i := range perm {
+		if occurring == nil || occurring[i] {
+			s.pos[i] = len(s.perm)
+			s.perm = append(s.perm, i)
+		}
+	}
+	activeSchedule.Store(s)
+}
+
+func clearSchedule() { activeSchedule.Store(nil) }
 
 func permutations(n int) [][]int {
 	if n == 1 {
@@ -283,9 +335,13 @@ func checkC07(c caseC07) (Outcome, error) {
 			orders = orders[:2+0] // identity and reverse in the full sweep
 			orders = append(orders, shuffled(n, uint64(c.Perm+n)))
 		}
+		occurring := learnBatches(n, text)
+		if len(occurring) != n {
+			out.Label("fewer-batches-than-workers")
+		}
 		for _, perm := range orders {
 			skipsBefore := atomic.LoadInt64(&scheduleSkips)
-			installSchedule(perm)
+			installSchedule(perm, occurring)
 			pr, pb, pe := parser.NewParallelParser(n).Parse(text)
 			clearSchedule()
 			if atomic.LoadInt64(&scheduleSkips) != skipsBefore {
